@@ -61,6 +61,8 @@ FIXED = [
     (['C04', 'C08'], 'xml/attribute/*', 'XML attributes were loaded into numbers without range checking', 'XML attribute values were read with pugixml as_int()/as_uint()/as_float() and static_cast: au8="300" loaded 44 into uint8_t, ai16="70000" loaded 4464, au32="-1" loaded 0, ai="99999999999999999999" loaded INT64_MAX, af="1e999" loaded infinity, all silently and ignoring both policies'),
     (['C09'], 'writer/malformed/bare-CR-not-quoted', 'CSV writer did not quote values which contain carriage return', 'a cell containing U+000D without LF (e.g. "v\\r|") was written unquoted; a strict RFC 4180 reader (and CPython csv) sees a record break there'),
     (['C09'], 'reader/rejected/Parsing error/mem | reader/ragged-record-accepted/more', 'CSV string reader lost the last empty value', 'memory input "h1,h2\\n1," (last field empty, no final line break) was rejected with "Number of values are different than in header", and "a;b;c\\r\\n1;2;3;" (one field too many) was accepted'),
+    (['C04'], 'document/msgpack/member/float->f32/* (inf, nan)', 'infinity and NaN could not be converted from double to float', 'MsgPack float64 +-infinity / NaN loaded into a float member was reported as Overflow (or skipped) although float represents them; Convert::To<float>(double infinity) threw out_of_range'),
+    (['C04', 'C16'], 'document/xml|csv/*/float->int/wrong-value', 'numbers in exponent notation were truncated', 'XML/CSV text "1e+300" loaded into int64_t as 1, "1e+20" into uint32_t as 1, "0.5" into bool as false (only the "1.5" form was rejected): the integer prefix was taken and the exponent ignored'),
 ]
 
 KNOWN = [
